@@ -11,8 +11,13 @@
      timeout; the timer branch is an always enabled alternative (real time is
      abstracted to nondeterminism); the schedule's [choice] picks.
    * sync.RWMutex: [o_rd] the readers holding it, [o_wr] the writer holding
-     it (who holds it is ghost information; enabledness only looks at
-     "no writer" for RLock and "no reader and no writer" for Lock).
+     it, [o_ww] the writer that has announced itself and waits for the
+     readers to leave (who holds it is ghost information). RLock is enabled
+     when there is no writer and no announced writer (Go: "a blocked Lock call
+     excludes new readers"); Lock acquires at once when the lock is free,
+     announces itself (-> PLockWait) when only readers hold it and nobody else
+     is announced, and is disabled otherwise; the announced writer acquires
+     when the last reader has left.
    * sync.WaitGroup: a counter; Wait is enabled at 0; Done at 0 panics.
    * go f(): appends a thread.
 
@@ -70,6 +75,7 @@ Record psobj := PsObj {
   o_subs : list cid;
   o_rd : list tid;            (* RWMutex: readers holding the lock *)
   o_wr : option tid;          (* RWMutex: writer holding the lock *)
+  o_ww : option tid;          (* RWMutex: writer announced, waiting for the readers to leave *)
   o_timeout : Z;              (* PubTimeoutAfter *)
   o_cb : bool;                (* OnPubTimeout != nil *)
   o_defbuf : Z                (* DefaultBuffer *)
@@ -99,6 +105,7 @@ Inductive ret :=
 
 Inductive pc :=
 | PIdle
+| PLockWait (cl : call)         (* Lock() announced for this call; prog already advanced *)
 | PAdd (k : callid) (o : oid) (n : nat) (ps : list pair)
 | PLoop (k : callid) (o : oid) (ps : list pair)
 | PSyncCb (k : callid) (o : oid) (p : pair) (ps : list pair)
@@ -187,11 +194,14 @@ Definition sub_index (subs : list cid) (sub : cid) : Z := sub_index_from 0%Z sub
 (* ---- record updates ---- *)
 
 Definition set_rd (ob : psobj) (rd : list tid) : psobj :=
-  PsObj (o_subs ob) rd (o_wr ob) (o_timeout ob) (o_cb ob) (o_defbuf ob).
+  PsObj (o_subs ob) rd (o_wr ob) (o_ww ob) (o_timeout ob) (o_cb ob) (o_defbuf ob).
+(* the write lock changes hands: any announcement is consumed *)
 Definition set_wr (ob : psobj) (wr : option tid) : psobj :=
-  PsObj (o_subs ob) (o_rd ob) wr (o_timeout ob) (o_cb ob) (o_defbuf ob).
+  PsObj (o_subs ob) (o_rd ob) wr None (o_timeout ob) (o_cb ob) (o_defbuf ob).
+Definition set_ww (ob : psobj) (ww : option tid) : psobj :=
+  PsObj (o_subs ob) (o_rd ob) (o_wr ob) ww (o_timeout ob) (o_cb ob) (o_defbuf ob).
 Definition set_subs (ob : psobj) (subs : list cid) : psobj :=
-  PsObj subs (o_rd ob) (o_wr ob) (o_timeout ob) (o_cb ob) (o_defbuf ob).
+  PsObj subs (o_rd ob) (o_wr ob) (o_ww ob) (o_timeout ob) (o_cb ob) (o_defbuf ob).
 
 Definition set_objs (c : config) (objs : list psobj) : config :=
   Config objs (c_chans c) (c_wg c) (c_threads c) (c_trace c) (c_panic c).
@@ -215,10 +225,21 @@ Definition do_panic (c : config) (t : tid) (k : panic_kind) : config :=
 Definition with_pc (th : thread) (p : pc) : thread := Thread (th_prog th) p (th_rets th).
 Definition returns (th : thread) (r : ret) : thread := Thread (th_prog th) PIdle (th_rets th ++ [r]).
 
-Definition lock_free (ob : psobj) : bool :=
-  match o_rd ob, o_wr ob with [], None => true | _, _ => false end.
+(* Lock() by t can acquire now *)
+Definition lock_free (t : tid) (ob : psobj) : bool :=
+  match o_rd ob, o_wr ob, o_ww ob with
+  | [], None, None => true
+  | [], None, Some t' => t' =? t
+  | _, _, _ => false
+  end.
+(* Lock() can announce itself: only readers hold the lock, nobody is announced *)
+Definition can_announce (ob : psobj) : bool :=
+  match o_rd ob, o_wr ob, o_ww ob with
+  | _ :: _, None, None => true
+  | _, _, _ => false
+  end.
 Definition rlock_free (ob : psobj) : bool :=
-  match o_wr ob with None => true | Some _ => false end.
+  match o_wr ob, o_ww ob with None, None => true | _, _ => false end.
 
 (* ---- receiving ---- *)
 
@@ -325,11 +346,20 @@ Definition step_pub_start (c : config) (t : tid) (th : thread) (rest : list call
     else None
   end.
 
-Definition step_sub_start (c : config) (t : tid) (th : thread) (rest : list call) (o : oid) (size : Z) : option config :=
+(* Lock() finds readers: announce and wait (only from PIdle: an announced caller is not announced twice) *)
+Definition announce (c : config) (t : tid) (th : thread) (rest : list call) (cl : call) (o : oid) (ob : psobj) : option config :=
+  match th_pc th with
+  | PIdle => if can_announce ob
+             then Some (set_thread (set_obj c o (set_ww ob (Some t))) t (Thread rest (PLockWait cl) (th_rets th)))
+             else None
+  | _ => None
+  end.
+
+Definition step_sub_start (c : config) (t : tid) (th : thread) (rest : list call) (cl : call) (o : oid) (size : Z) : option config :=
   match nth_error (c_objs c) o with
   | None => None
   | Some ob =>
-    if lock_free ob then
+    if lock_free t ob then
       if (size <? 0)%Z then Some (do_panic c t OtherPanic)       (* makechan: size out of range *)
       else
         let ci := length (c_chans c) in
@@ -337,7 +367,7 @@ Definition step_sub_start (c : config) (t : tid) (th : thread) (rest : list call
                                        o (set_subs (set_wr ob (Some t)) (o_subs ob ++ [ci])))
                               t (Thread rest (PSubU o ci) (th_rets th)))
                   [ESub o ci])
-    else None
+    else announce c t th rest cl o ob
   end.
 
 Definition step_call (c : config) (t : tid) (th : thread) (cl : call) (rest : list call) : option config :=
@@ -349,35 +379,35 @@ Definition step_call (c : config) (t : tid) (th : thread) (cl : call) (rest : li
       | None => None
       | Some ob =>
         if rlock_free ob then
-          let clone := PsObj (withonly_loop sub (o_subs ob)) [] None (o_timeout ob) (o_cb ob) 0%Z in
+          let clone := PsObj (withonly_loop sub (o_subs ob)) [] None None (o_timeout ob) (o_cb ob) 0%Z in
           Some (set_thread (set_obj c o (set_rd ob (t :: o_rd ob))) t (Thread rest (PWithOnlyU o clone) (th_rets th)))
         else None
       end
   | CSub o =>
       match nth_error (c_objs c) o with
       | None => None
-      | Some ob => step_sub_start c t th rest o (o_defbuf ob)
+      | Some ob => step_sub_start c t th rest cl o (o_defbuf ob)
       end
-  | CSubBuf o size => step_sub_start c t th rest o size
+  | CSubBuf o size => step_sub_start c t th rest cl o size
   | CUnsub o None =>
       Some (set_thread c t (Thread rest PIdle (th_rets th ++ [RErr ErrSubscriptionNotInitalized])))
   | CUnsub o (Some sub) =>
       match nth_error (c_objs c) o with
       | None => None
       | Some ob =>
-        if lock_free ob then
+        if lock_free t ob then
           let idx := sub_index (o_subs ob) sub in
           let pc' := if (idx =? -1)%Z then PUnsubU o (RErr ErrAlreadyUnsubscribed) else PUnsubClose o (Z.to_nat idx) in
           Some (set_thread (set_obj c o (set_wr ob (Some t))) t (Thread rest pc' (th_rets th)))
-        else None
+        else announce c t th rest cl o ob
       end
   | CUnsubAll o =>
       match nth_error (c_objs c) o with
       | None => None
       | Some ob =>
-        if lock_free ob then
+        if lock_free t ob then
           Some (set_thread (set_obj c o (set_wr ob (Some t))) t (Thread rest (PUnsubAllLoop o (o_subs ob)) (th_rets th)))
-        else None
+        else announce c t th rest cl o ob
       end
   | CRecv ci => step_recv c t th ci
   | CRange ci => step_recv c t th ci
@@ -405,6 +435,7 @@ Definition step (c : config) (t : tid) (ch : choice) : option config :=
         | [] => None
         | cl :: rest => step_call c t th cl rest
         end
+    | PLockWait cl => step_call c t th cl (th_prog th)
     | PAdd k o n ps =>
         Some (set_thread (set_wg c (wg_set (c_wg c) (k_tid k) (k_n k) (c_wg c (k_tid k) (k_n k) + n)))
                          t (with_pc th (PLoop k o ps)))
@@ -540,7 +571,7 @@ Fixpoint run (c : config) (s : sched) : config :=
 (* One root PubSub (object 0) with the given configuration, no subscribers;
    one thread per program. *)
 Definition init (timeout : Z) (cb : bool) (defbuf : Z) (progs : list (list call)) : config :=
-  Config [PsObj [] [] None timeout cb defbuf] [] (fun _ _ => 0)
+  Config [PsObj [] [] None None timeout cb defbuf] [] (fun _ _ => 0)
          (map (fun p => Thread p PIdle []) progs) [] None.
 
 Definition Panicked (c : config) : Prop := c_panic c <> None.
